@@ -1,5 +1,7 @@
 import StorageModel.Codec.CompoundKey
 import StorageModel.Codec.Fields
+import StorageModel.Codec.ListKeys
+import StorageModel.Codec.ContextLemmas
 /-
   C13 — Stored values and compound keys round-trip.
 
@@ -268,6 +270,69 @@ theorem list_roundtrip (tb : TB) (name : Bytes) (xs : List Value) (chk : Checker
     rw [hl] at hr
     simp [hr, Res.map]
 
+
+/-! ### the list keys: little-endian indexes in a byte-ordered bucket
+
+`list_roundtrip` holds for every length because `GetList` looks every index up.  The keys are
+`Int32ToBytes(idx)` = tag 02 + the little-endian index, so a cursor walk of the list bucket
+delivers the elements in index order only up to 255. -/
+
+/-- below 256 the byte order of the element keys is the index order … -/
+theorem list_key_order_below_256 (i j : Nat) (hij : i < j) (hj : j < 256) : idxKey i < idxKey j :=
+  idxKey_lt_of_lt_256 i j hij hj
+
+/-- … and not beyond: the key of element 256 sorts before the key of every other element except
+    element 0 (in particular before element 1). -/
+theorem list_key_order_breaks_at_256 (i : Nat) (h0 : i ≠ 0) (h256 : i ≠ 256) (hi : i < 65536) :
+    idxKey 256 < idxKey i :=
+  idxKey_256_lt i h0 h256 hi
+
+/-- Reading a list by ONE CURSOR PASS in key order (instead of one lookup per index) does not round
+    trip: for every supported list of 257 … 65536 elements that `PutList` accepts, the cursor
+    reading is the list only if elements 1 and 256 coincide — the second entry of the bucket is
+    element 256. -/
+theorem cursor_walk_breaks_roundtrip (es es' : Bkt) (name : Bytes) (xs : List Value)
+    (h256 : 256 < xs.length) (hle : xs.length ≤ 65536) (hs : supported (.list xs) = true)
+    (h : putListRaw es name xs = .ok es') :
+    ∃ child, bbucket es' name = some child ∧
+      (getListByCursor child = .ok (normalize (.list xs)) →
+        (normXs xs).getD 1 .nil = (normXs xs).getD 256 .nil) := by
+  obtain ⟨child, child', hc, hb, hes⟩ := putListRaw_shape h
+  have hk : supportedXs xs = true := by
+    have : decide (xs.length < 2 ^ 31) = true ∧ supportedXs xs = true := by simpa [supported] using hs
+    exact this.2
+  obtain ⟨n0, n256, rest, hshape, hr⟩ := list_bucket_head xs child child' h256 hle hk hc hb
+  refine ⟨child', by rw [hes, bbucket_ins_self], ?_⟩
+  intro hcur
+  have hw : cursorWalk child' = readNode n0 :: .ok ((normXs xs).getD 256 .nil) ::
+      ((readEs rest).filter fun e => e.1 ≠ listSizeKey).map (·.2) := by
+    have h0 : idxKey 0 ≠ listSizeKey := idxKey_ne_listSizeKey 0
+    have h1 : idxKey 256 ≠ listSizeKey := idxKey_ne_listSizeKey 256
+    simp [cursorWalk, hshape, readEs, h0, h1, hr]
+  unfold getListByCursor at hcur
+  rw [hw] at hcur
+  cases hq : seqAll (readNode n0 :: .ok ((normXs xs).getD 256 .nil) ::
+      ((readEs rest).filter fun e => e.1 ≠ listSizeKey).map (·.2)) with
+  | panic => rw [hq] at hcur; simp [Res.map] at hcur
+  | ok l =>
+    rw [hq] at hcur
+    have hl : l = normXs xs := by simpa [Res.map, normalize] using hcur
+    have := seqAll_second hq
+    rw [hl] at this
+    exact this
+
+/-- non-vacuity: the list 0, 1, …, 256 is supported and its elements 1 and 256 differ, so the
+    cursor reading of the bucket `PutList` leaves for it is not the list. -/
+example : ∃ xs : List Value, 256 < xs.length ∧ xs.length ≤ 65536 ∧ supported (.list xs) = true ∧
+    (normXs xs).getD 1 .nil ≠ (normXs xs).getD 256 .nil := by
+  refine ⟨(List.range 257).map fun i : Nat => Value.i64 (i : Int), by simp, by simp, by set_option maxRecDepth 20000 in decide, ?_⟩
+  have h1 : (normXs ((List.range 257).map fun i : Nat => Value.i64 (i : Int))).getD 1 .nil = .i64 1 := by rfl
+  have h2 : (normXs ((List.range 257).map fun i : Nat => Value.i64 (i : Int))).getD 256 .nil = .i64 256 := by rfl
+  rw [h1, h2]
+  intro h
+  injection h with h
+  exact absurd h (by decide)
+
 /-- every well-keyed value is accepted under a fresh key of valid size: the success hypotheses of
     the theorems above are satisfiable for all of them. -/
 theorem put_succeeds (v : Value) (es : Bkt) (name : Bytes) (hw : wellKeyed v = true)
@@ -331,6 +396,178 @@ theorem mapped_checker_selects (f : Bytes → Bool) (m : List (Bytes × Bytes)) 
   unfold mappedChecker
   cases look m field <;> rfl
 
+
+/-! ## field checkers across context derivation (GetParentContext, WithFieldOverrides, GetOrCreatePath)
+
+`ctxApply tb ctx name op` is one field operation through a context whose bucket lies at `ctx.path`
+below the root store's entity bucket `tb.es`; `tb.err` is the error holder the family shares. -/
+
+/-- `GetParentContext` hands the parent store's strategy the SAME checker (and `IsCreate`), on the
+    parent store's entity bucket. -/
+theorem parent_context_inherits (ctx q : PCtx) (root : Bkt) (h : ctx.getParentContext root = .ok q) :
+    q.chk = ctx.chk ∧ q.isCreate = ctx.isCreate ∧ ctx.parentPath = some q.path := by
+  unfold PCtx.getParentContext at h
+  split at h
+  · cases h
+  · next pp hpp =>
+    split at h
+    · cases h
+    · injection h with h
+      subst h
+      exact ⟨rfl, rfl, hpp⟩
+
+/-- **checker_restricts, through the derived context**: a write of the parent part of an entity
+    through `ctx.GetParentContext()` whose field the context's checker does not select changes
+    nothing — neither the tree nor the error holder. -/
+theorem checker_restricts_parent_context (tb : TB) (ctx q : PCtx) (name : Bytes) (op : FieldOp) (f : Bytes → Bool)
+    (hq : ctx.getParentContext tb.es = .ok q) (hc : ctx.chk = some f) (hf : f name = false)
+    (hck : op.checked = true) : ctxApply tb q name op = tb :=
+  ctxApply_skips tb q name op ⟨f, by rw [(parent_context_inherits ctx q tb.es hq).1, hc], hf, hck⟩
+
+/-- the same for ANY context of the family, whatever its checker is by then (inherited, or mapped by
+    `WithFieldOverrides` on the context or on the one it was derived from): an operation the
+    context's checker does not let through changes nothing. -/
+theorem checker_restricts_any_context (tb : TB) (ctx : PCtx) (name : Bytes) (op : FieldOp)
+    (h : Skips ctx.chk name op) : ctxApply tb ctx name op = tb :=
+  ctxApply_skips tb ctx name op h
+
+/-- a write through any context touches only its own entry: every node of the tree that is not
+    the entry `ctx.path ++ [name]`, not one of the buckets that contain it, and not inside it,
+    is left as it was. -/
+theorem derived_write_touches_only_its_entry (tb : TB) (ctx : PCtx) (name : Bytes) (op : FieldOp) (t : List Bytes)
+    (ha : Apart (ctx.path ++ [name]) t) : nodeAt (ctxApply tb ctx name op).es t = nodeAt tb.es t :=
+  ctxApply_frame tb ctx name op t ha
+
+/-- the error holder is shared by the family: after an error raised through any of its contexts,
+    a write through any other one (the parent context after the child's, or the other way round)
+    does nothing. -/
+theorem shared_error_stops_family (tb : TB) (ctx : PCtx) (name : Bytes) (op : FieldOp) (e : BErr)
+    (h : tb.err = some e) : ctxApply tb ctx name op = tb :=
+  ctxApply_err tb ctx name op e h
+
+/-- `WithFieldOverrides` on a context: the mapped checker, nothing for a nil checker. -/
+theorem overrides_on_context (ctx : PCtx) (m : List (Bytes × Bytes)) :
+    (ctx.withOverrides m).chk = (match ctx.chk with
+      | none => none
+      | some f => some (mappedChecker f m)) ∧ (ctx.withOverrides m).path = ctx.path := by
+  cases h : ctx.chk <;> simp [PCtx.withOverrides, withFieldOverrides, h]
+
+/-- `GetOrCreatePath` touches only the buckets on the path. -/
+theorem getOrCreatePath_touches_only_path (np : List Bytes) (es : Bkt) (t : List Bytes) (h : ¬ t <+: np) :
+    nodeAt (getOrCreatePath es np).1 t = nodeAt es t :=
+  getOrCreatePath_frame np es t h
+
+/-- a nested bucket has its own error holder: what happens in it never reaches the family's. -/
+theorem nested_bucket_own_holder (tb : TB) (ctx : PCtx) (np : List Bytes) (ops : List (Bytes × FieldOp)) :
+    (nestedPersist tb ctx np ops).1.err = tb.err :=
+  nestedPersist_err tb ctx np ops
+
+/-- **an entity write through derived contexts touches only what the checker selects**: whatever
+    the sequence of blocks — through the context itself, through `GetParentContext()`, into buckets
+    obtained with `GetOrCreatePath` below either — a node `t` of the tree is left exactly as it was,
+    provided every operation either is not let through by the checker or concerns an entry apart
+    from `t`, and no nested bucket is created on (or above) `t`. -/
+theorem derived_writes_touch_only_selected (gs : List Group) (st : RunState) (t : List Bytes)
+    (hovr : ∀ g ∈ gs, g.ovr = none)
+    (hcreate : ∀ g ∈ gs, g.np ≠ [] → ¬ t <+: g.bucket st.ctx.path st.ctx.parentPath)
+    (h : ∀ g ∈ gs, ∀ p ∈ g.ops, Skips st.ctx.chk p.1 p.2 ∨ Apart (g.bucket st.ctx.path st.ctx.parentPath ++ [p.1]) t) :
+    nodeAt (runGroups st gs).tb.es t = nodeAt st.tb.es t :=
+  runGroups_frame gs st t hovr hcreate h
+
+/-- the case of a child store whose strategy persists the embedded parent entity through
+    `GetParentContext()` (parent part in the root bucket, child part in the child bucket `cp`):
+    under the checker `f`, a PARENT field `j` that `f` does not select keeps its value (or stays
+    absent), whatever the strategy writes through either context. -/
+theorem child_store_write_keeps_unselected_parent_field (gs : List Group) (st : RunState) (f : Bytes → Bool)
+    (cp : List Bytes) (c0 : Bytes) (cr : List Bytes) (j : Bytes)
+    (hcp : st.ctx.path = cp) (hcp0 : cp = c0 :: cr) (hpp : st.ctx.parentPath = some []) (hchk : st.ctx.chk = some f)
+    (hplain : ∀ g ∈ gs, g.ovr = none ∧ g.np = [])
+    (hf : f j = false) (hj : j ≠ c0)
+    (hck : ∀ g ∈ gs, ∀ p ∈ g.ops, p.1 = j → p.2.checked = true) :
+    look (runGroups st gs).tb.es j = look st.tb.es j := by
+  have := derived_writes_touch_only_selected gs st [j] (fun g hg => (hplain g hg).1)
+    (fun g hg hnp => absurd (hplain g hg).2 hnp) ?_
+  · simpa [nodeAt_single] using this
+  · intro g hg p hp
+    by_cases hn : p.1 = j
+    · exact Or.inl ⟨f, hchk, by rw [hn]; exact hf, hck g hg p hp hn⟩
+    · refine Or.inr ?_
+      have hnp := (hplain g hg).2
+      cases hpar : g.parent with
+      | true =>
+        have hb : g.bucket st.ctx.path st.ctx.parentPath = [] := by simp [Group.bucket, hpar, hpp, hnp]
+        rw [hb]
+        constructor
+        · intro hpre
+          rw [List.nil_append, List.cons_prefix_cons] at hpre
+          exact hn hpre.1.symm
+        · intro hpre
+          rw [List.nil_append, List.cons_prefix_cons] at hpre
+          exact hn hpre.1
+      | false =>
+        have hb : g.bucket st.ctx.path st.ctx.parentPath = c0 :: cr := by simp [Group.bucket, hpar, hcp, hcp0, hnp]
+        rw [hb]
+        constructor
+        · intro hpre
+          rw [List.cons_append, List.cons_prefix_cons] at hpre
+          exact hj hpre.1
+        · intro hpre
+          have := hpre.length_le
+          simp at this
+
+/-- … and a CHILD field `j` that `f` does not select keeps its value, provided the parent part has
+    no field named like the child bucket. -/
+theorem child_store_write_keeps_unselected_child_field (gs : List Group) (st : RunState) (f : Bytes → Bool)
+    (c0 : Bytes) (cr : List Bytes) (j : Bytes)
+    (hcp : st.ctx.path = c0 :: cr) (hpp : st.ctx.parentPath = some []) (hchk : st.ctx.chk = some f)
+    (hplain : ∀ g ∈ gs, g.ovr = none ∧ g.np = [])
+    (hf : f j = false)
+    (hname : ∀ g ∈ gs, g.parent = true → ∀ p ∈ g.ops, p.1 ≠ c0)
+    (hck : ∀ g ∈ gs, ∀ p ∈ g.ops, p.1 = j → p.2.checked = true) :
+    nodeAt (runGroups st gs).tb.es (c0 :: cr ++ [j]) = nodeAt st.tb.es (c0 :: cr ++ [j]) := by
+  apply derived_writes_touch_only_selected gs st _ (fun g hg => (hplain g hg).1)
+    (fun g hg hnp => absurd (hplain g hg).2 hnp)
+  intro g hg p hp
+  by_cases hn : p.1 = j
+  · exact Or.inl ⟨f, hchk, by rw [hn]; exact hf, hck g hg p hp hn⟩
+  · refine Or.inr ?_
+    have hnp := (hplain g hg).2
+    cases hpar : g.parent with
+    | true =>
+      have hb : g.bucket st.ctx.path st.ctx.parentPath = [] := by simp [Group.bucket, hpar, hpp, hnp]
+      rw [hb]
+      constructor
+      · intro hpre
+        have := hpre.length_le
+        simp at this
+      · intro hpre
+        rw [List.nil_append, List.cons_append, List.cons_prefix_cons] at hpre
+        exact hname g hg hpar p hp hpre.1
+    | false =>
+      have hb : g.bucket st.ctx.path st.ctx.parentPath = c0 :: cr := by simp [Group.bucket, hpar, hcp, hnp]
+      rw [hb]
+      constructor
+      · intro hpre
+        have h1 := (List.prefix_append_right_inj (c0 :: cr)).mp hpre
+        rw [List.cons_prefix_cons] at h1
+        exact hn h1.1.symm
+      · intro hpre
+        have h1 := (List.prefix_append_right_inj (c0 :: cr)).mp hpre
+        rw [List.cons_prefix_cons] at h1
+        exact hn h1.1
+
+/-! non-vacuity: a child store at `ext`, the checker selects only the child field `t`; the parent
+    part (`n` = "b") written through `GetParentContext()` is refused by the checker, the child field
+    is written. -/
+example :
+    let root : Bkt := [([101], .sub [([116], .val [1, 0])]), ([110], .val [5, 97])]
+    let st : RunState := { tb := { es := root }, ctx := { path := [[101]], parentPath := some [], chk := some (fun k => k == [116]) } }
+    let gs : List Group := [{ parent := true, ovr := none, np := [], ops := [([110], .str [98])] },
+                            { parent := false, ovr := none, np := [], ops := [([116], .bool true)] }]
+    (runGroups st gs).tb.err = none ∧ bget (runGroups st gs).tb.es [110] = some [5, 97] ∧
+      (subAt (runGroups st gs).tb.es [[101]]).map (fun b => bget b [116]) = some (some [1, 1]) := by
+  decide
+
 /-! non-vacuity: a concrete entity write under a checker that selects one of two fields -/
 example :
     let tb : TB := { es := [([97], .val [5, 120]), ([98], .val [2, 1, 0, 0, 0])] }
@@ -349,3 +586,6 @@ end StorageModel.Properties.C13
 #print axioms StorageModel.Properties.C13.value_roundtrip
 #print axioms StorageModel.Properties.C13.strlist_roundtrip
 #print axioms StorageModel.Properties.C13.persist_touches_only_selected
+#print axioms StorageModel.Properties.C13.cursor_walk_breaks_roundtrip
+#print axioms StorageModel.Properties.C13.derived_writes_touch_only_selected
+#print axioms StorageModel.Properties.C13.child_store_write_keeps_unselected_parent_field
